@@ -202,6 +202,15 @@ def readUintLoop (w l : Nat) (rest : Bytes) : Res (Val × Bytes) :=
   else if l > rest.length then .err 0
   else .ok (.nat (beDecMod w 0 (rest.take l)), rest.drop l) 0
 
+/-- a non-negative integer of the NDN packet format is 1, 2, 4 or 8 bytes long -/
+def natLenOk (l : Nat) : Bool := l == 1 || l == 2 || l == 4 || l == 8
+
+/-- natural and time fields (`GenNaturalNumberDecode`; repair F-13e: before it EVERY length was
+    accepted — `6a 03 01 02 03` decoded to 66051, `6a 00` to 0, nine bytes lost their first):
+    `if l != 1 && l != 2 && l != 4 && l != 8 { err = ErrFormat } else { the byte loop }` -/
+def readNatLoop (l : Nat) (rest : Bytes) : Res (Val × Bytes) :=
+  if natLenOk l then readUintLoop 8 l rest else .err 0
+
 /-- `reader.ReadWire(int(l))` on a BufferReader (repaired bounds) -/
 def readWire (l : Nat) (rest : Bytes) : Res (Val × Bytes) :=
   if goInt l < 0 then .err 0
@@ -382,9 +391,9 @@ def readMap (rk rv : Nat → Bool → Bytes → Res (Val × Bytes)) (vt : Nat) (
 mutual
 /-- `GenReadFrom` of one field: given the decoded length and the bytes after the L field -/
 def readKind : Kind → Nat → Bool → Bytes → Res (Val × Bytes)
-  | .natural _, l, _, rest => readUintLoop 8 l rest
+  | .natural _, l, _, rest => readNatLoop l rest
   | .time _, l, _, rest =>
-      (readUintLoop 8 l rest).bind fun
+      (readNatLoop l rest).bind fun
         | (.nat ms, r) => .ok (.nat (min ms 9223372036854 * 1000000), r) 0
         | x => .ok x 0
   | .fixedUint 1 _, _, _, rest =>
